@@ -11,6 +11,9 @@ sys.path.insert(0, '.')
 from mirsmt import native, env
 for prof in ("dev", "release"):
     print("replay", prof, native.build(prof))
+from obligations import hubnative
+for prof in ("dev", "release"):
+    print("replay-hub", prof, hubnative.build(prof))
 for w in ("lib", "bin"):
     t, p, dt = env.dump_mir(w)
     print("mir", w, p, "%.1fs" % dt)
